@@ -222,8 +222,12 @@ def run_job(args):
                                              symbolic=str(v1)[:200], concrete=str(v2)[:200]))
                             break
                 elif r["status"] != "ok":
-                    mism.append(dict(inputs=rec["inputs"], status=r["status"],
-                                     failed=r["failed"][:5], message=r.get("message")))
+                    # the real float code violates an obligation on the model of
+                    # an explored path although the exact-real run did not (float /
+                    # dtype specific behaviour): a concrete counterexample
+                    out["cex"].append(dict(tag=r["failed"][0] + " [float replay of a path model]",
+                                           inputs=rec["inputs"], known=None, trace=0,
+                                           message=r.get("message")))
                 else:
                     mism.append(dict(inputs=rec["inputs"], name="#observations",
                                      symbolic=len(rec["observed"]), concrete=len(cobs)))
